@@ -157,6 +157,17 @@ def _c16_check(sim, srv, pool, cls):
             if not re.match(r"usage: " + re.escape(cmd) + r"(\s|$)", rep):
                 sim.violate("C16", "member_help", f"'{cmd} {flag}' answered with {rep[:70]!r}")
                 return
+            # every parameter of the method is offered: positionals by name, optionals as --long-option
+            mem = inspect.getattr_static(cls, cmd.replace("-", "_"))
+            if inspect.isfunction(mem):
+                squeezed = re.sub(r"\s+", "", rep)
+                for pname, par in inspect.signature(mem).parameters.items():
+                    if pname == "self":
+                        continue
+                    want = pname if par.default is inspect.Parameter.empty else "--" + pname.replace("_", "-")
+                    if want not in squeezed:
+                        sim.violate("C16", "member_parameters", f"'{cmd} {flag}' does not offer parameter {pname!r}: {rep[:80]!r}")
+                        return
             # "... with -h/--help describing it": the first line of the member's (possibly inherited) docstring
             member = inspect.getattr_static(cls, cmd.replace("-", "_"))
             target = member.fget if isinstance(member, property) else (member.__func__ if isinstance(member, staticmethod) else member)
@@ -239,7 +250,7 @@ def gen_command(rng, cls, short=False):
         direct_pos.extend([e, c])
 
     if k == "apply":
-        fn = rng.choice(["work", "job", "mutator"])
+        fn = rng.choice(["work", "job", "mutator", "alias", "alias"])
         text = ["apply", W + fn]
         args, kwargs, num, gname = (), None, 1, None
         if rng.random() < 0.5:
@@ -352,6 +363,11 @@ def c17_unit(rng, seed):
             # the very same command text again, twice more (with two alternating sessions one of them sees it twice)
             cmds.append({"text": text, "direct": copy.deepcopy(direct), "gates": list(range(12, 24))})
             cmds.append({"text": text, "direct": copy.deepcopy(direct), "gates": list(range(24, 36))})
+        if "alias" in text and rng.random() < 0.7:
+            # the dotted path is rebound, then the very same text is sent again (twice: one session sees it twice)
+            cmds.append({"rebind": True, "text": "", "direct": None, "gates": []})
+            cmds.append({"text": text, "direct": copy.deepcopy(direct), "gates": []})
+            cmds.append({"text": text, "direct": copy.deepcopy(direct), "gates": []})
         if rng.random() < 0.3:
             # noise: a help request / usage error on another session; must not leak into anybody's reply
             base = text.split(" ")[0]
@@ -387,6 +403,9 @@ def c17_exec(cfg, cmds, mode):
         if i >= len(cmds):
             return None
         cmd = cmds[i]
+        if ph == 2 and cmd.get("rebind"):
+            state["i"] += 1
+            return {"op": "rebind"}
         if ph == 2:
             state["phase"] = 3
             if mode == "served":
@@ -467,7 +486,19 @@ def c17_exec(cfg, cmds, mode):
 
 
 # ============================================================================= C18: robustness
-JUNK = ["--", "-", "--zz", "-x", "'", "\"", "((", "[1,", "{'a':}", "9" * 30, "éü中", "a=b", "%s", "$(ls)",
+BAD_INTS = ["==SUPPRESS==", "three", "1.5", "None", "0x1g", "1e3", "[1]"]
+
+
+def invalid_line(rng, cls, token):
+    """A line that is certainly malformed (an int parameter given a non-int): must be answered with usage/error text."""
+    bad = rng.choice(BAD_INTS)
+    if cls == "S":
+        return rng.choice([f"start {bad}", f"stop {bad}", f"pool-size {bad}", f"cancel {bad}", f"cancel 0 {bad}"])
+    return rng.choice([f"apply {W}work -n {bad} -g grp{token}", f"map {W}work [1,2] -n {bad} -g grp{token}",
+                       f"pool-size {bad}", f"cancel {bad}", f"starmap {W}work [(1,2)] --num-concurrent {bad}"])
+
+
+JUNK = ["==SUPPRESS==", "--", "-", "--zz", "-x", "'", "\"", "((", "[1,", "{'a':}", "9" * 30, "éü中", "a=b", "%s", "$(ls)",
         "None", "True", "-0", "1e9", "tpsim.nope.x", "os.system", "..", "apply", "-h", "--help", "\t", "\\", "@file"]
 
 
@@ -539,10 +570,23 @@ def c18_run(rng):
         elif waiter and n == nlines - 1 and not closed:
             text = "gather-and-close --return-exceptions"
             closed = True
-        if rng.random() < 0.55:
+        must_be_usage = False
+        if rng.random() < 0.12 and not text.startswith("gather-and-close"):
+            text = invalid_line(rng, cls, token)
+            must_be_usage = True
+        elif rng.random() < 0.55:
             text = mutate_line(rng, text, token)
         elif rng.random() < 0.15:
             text = "-h"            # long reply ...
+        if rng.random() < 0.07 and cls == "T" and not must_be_usage and not text.startswith(("gather", "until")):
+            # a request and the cancellation of its group pipelined in ONE write: the spawner is cancelled before it ran
+            g = f"pz{n}"
+            tokens[f"{c}:{counts[c]}"] = f"tok{c}x{counts[c]}q"
+            counts[c] += 1
+            tokens[f"{c}:{counts[c]}"] = f"tok{c}x{counts[c]}q"
+            counts[c] += 1
+            steps.append({"op": "raw", "c": c, "data": f"apply {W}work -n 2 -g {g}\ncancel-group {g}\n"})
+            steps.append({"op": "idle"})
         tokens[f"{c}:{counts[c]}"] = token
         counts[c] += 1
         if not burst:
@@ -562,6 +606,9 @@ def c18_run(rng):
             steps.append({"op": "line", "c": c, "text": "num-running"})
             steps.append({"op": "idle"})
             steps.append({"op": "expect_number", "c": c, "i": counts[c] - 1})
+        if must_be_usage:
+            steps.append({"op": "idle"})
+            steps.append({"op": "expect_usage", "c": c, "i": counts[c] - 1})
         if not burst:
             steps.append({"op": "snap_line", "c": c, "i": counts[c] - 1})
         elif rng.random() < 0.3:
@@ -612,6 +659,17 @@ def _op_expect_number(self, st):
             self.violate("C18", "stale_buffer", f"'num-running' after a long reply answered {reps[i][:60]!r}")
 
 
+def _op_expect_usage(self, st):
+    c = self.clients.get(st["c"])
+    if c is None:
+        return
+    reps = c.replies()
+    i = st["i"]
+    if i < len(reps) and i < len(c.lines) and not reps[i].startswith("usage:"):
+        self.violate("C18", "malformed_accepted", f"malformed line {c.lines[i]!r} was not answered with a usage/error message but with {reps[i][:60]!r}")
+
+
+CtlSim._op_expect_usage = _op_expect_usage
 CtlSim._op_snap_line = _op_snap_line
 CtlSim._op_snap = _op_snap
 CtlSim._op_expect_number = _op_expect_number
@@ -663,6 +721,13 @@ def c19_run(rng):
         elif r < 0.7:
             steps.append({"op": "run", "n": rng.choice([1, 2, 5, 20])})
     steps.append({"op": "idle"})
+    if rng.random() < 0.25:
+        # complete stop (all raw clients leave), then the same server object is started again and must serve again
+        steps.append({"op": "stop"})
+        for lab in labels:
+            steps.append({"op": "close", "c": lab, "how": "close"})
+        steps += [{"op": "idle"}, {"op": "restart"}, {"op": "idle"}, {"op": "connect", "c": 50, "w": 80}, {"op": "idle"},
+                  {"op": "line", "c": 50, "text": "num-running"}, {"op": "idle"}]
     return {"prop": "C19", "config": cfg, "steps": steps, "final": ["c19"]}
 
 
@@ -893,7 +958,7 @@ def exec_unit(prop, unit, agg):
         b, tb, rb = c17_exec(copy.deepcopy(cfg), cmds, "direct")
         agg.stats["c17_commands"] += len(cmds)
         for i, cmd in enumerate(cmds):
-            agg.stats["c17_cmd:" + cmd["text"].split(" ")[0]] += 1
+            agg.stats["c17_cmd:" + (cmd["text"].split(" ")[0] or "(rebind)")] += 1
         mism = None
         for i, (x, y) in enumerate(zip(ra, rb)):
             if x != y:
